@@ -16,6 +16,8 @@ use std::sync::{Arc, Mutex};
 
 #[path = "../c15_model.rs"]
 mod c15_model;
+#[path = "../c15_wide.rs"]
+mod c15_wide;
 #[path = "../dlwatch.rs"]
 mod dlwatch;
 #[path = "../sanit.rs"]
@@ -548,6 +550,71 @@ impl C15 {
         }
     }
 
+    /// One writer, several readers, a few hundred stored rules (see c15_wide.rs).
+    fn explore_wide(&self, cli: &Cli, st: &mut Stats) {
+        let rounds = cli.n(8, 60) as usize;
+        let writer_ops = cli.n(1_500, 4_000) as usize;
+        let lanes = (cli.threads / 4).max(1);
+        let sizes = [70usize, 130, 200, 65, 129, 520];
+        let mut reported = false;
+        for round in 0..rounds {
+            if cli.expired() {
+                st.count("stopped_by_time_budget");
+                break;
+            }
+            // odd rounds under the seeded sleeps at the library's schedule points
+            let perturbed = round % 2 == 1;
+            if perturbed {
+                sched::install(cli.seed, PERTURB_US);
+            }
+            let cfgs: Vec<c15_wide::WideCfg> = (0..lanes)
+                .map(|l| c15_wide::WideCfg {
+                    permanent: sizes[(round * lanes + l) % sizes.len()],
+                    readers: 3,
+                    writer_ops: if perturbed { writer_ops / 4 } else { writer_ops },
+                    seed: cli.seed.wrapping_mul(7919).wrapping_add((round * lanes + l) as u64),
+                })
+                .collect();
+            let outs: Vec<(c15_wide::WideObs, Option<c15_wide::WideFail>)> = std::thread::scope(|sc| {
+                let hs: Vec<_> = cfgs.iter().map(|c| sc.spawn(move || c15_wide::run_wide(c))).collect();
+                hs.into_iter().map(|h| h.join().unwrap_or_else(|_| (Default::default(), Some(c15_wide::WideFail { clause: "harness", cause: "run-died".into(), detail: String::new() })))).collect()
+            });
+            if perturbed {
+                sched::uninstall();
+            }
+            for (cfg, (o, f)) in cfgs.iter().zip(outs) {
+                st.eval();
+                st.count("wide_runs(1 writer + 3 readers, 65..520 permanent rules)");
+                st.add("wide_writer_operations", o.writer_ops);
+                st.add("wide_reads_checked", o.reads);
+                st.add("wide_reads_overlapping_a_writer_operation", o.reads_overlapping_a_write);
+                for (i, v) in c15_wide::view_names().iter().enumerate() {
+                    st.add(&format!("wide_reads::{}", v), o.reads_by_view[i]);
+                }
+                st.add("wide_distinct_states_read_by_a_listing(summed over readers)", o.distinct_states_read);
+                st.max("max::wide_rules_in_one_listing", o.max_rules_listed);
+                st.max("max::wide_writer_operations_overlapping_one_read", o.widest_interval);
+                if o.reads_overlapping_a_write > 0 && f.is_none() {
+                    st.nontrivial(hash_of(&cfg.to_json().to_string()));
+                }
+                if let Some(f) = f {
+                    if f.clause == "harness" {
+                        st.inconclusive(format!("wide concurrent run: {}", f.cause));
+                    } else if !reported {
+                        reported = true;
+                        st.violation(violation(f.clause, &f.cause, &f.detail, cfg.to_json()));
+                    }
+                }
+            }
+            if reported {
+                break;
+            }
+        }
+        if st.get("wide_reads_overlapping_a_writer_operation") == 0 {
+            st.inconclusive("wide concurrent runs: no read ever overlapped a writer operation");
+        }
+    }
+
     fn explore_sanitizers(&self, cli: &Cli, st: &mut Stats) {
         let root = cli.root.clone();
         // Miri: the same generator, 64 scheduler seeds x 20 histories
@@ -670,7 +737,7 @@ impl Check for C15 {
         "C15"
     }
     fn rule(&self) -> String {
-        "sequential, EXHAUSTIVE: every sequence of length 1..=5 (quick) / 1..=6 (thorough) over the 25 mutating operations {add 4 names x 3 saliences, remove x4, enable x4, disable x4, clear}: return value and version checked after every operation, every read view (get_rule for all 4 names, get_rules, get_rule_names, rule_count, get_rules_by_salience+get_rule_by_index, get_statistics, version) compared with the ordered-list+version model after the last one; sequential, SAMPLED (saliences also i32::MIN / i32::MAX, 1 add in 6): random sequences of length 6..=8 (1 in 8: 9..=16) over 2-4 names with every view compared after every operation; plus 'wide' random sequences of 30..=90 operations over 48 names (beyond the stated 4-name bound; long lists with many equal saliences), views compared after the last operation; plus random sequences of 3..=8 steps over 3-4 names in which a third of the steps load a batch of 2-3 rules through add_rules_from_grl (added one by one; the first duplicate fails the call and what was added before it stays), every view compared after every step. A sequential case is non-trivial when at least 2 rules were stored at some point and it contains an operation other than a first-time add (rejected duplicate, missing-name operation, removal, enable/disable, clear); distinct by operation sequence (length>=5 exhaustive cases are counted, not hashed). Concurrent, SAMPLED: random programs of 3 threads x 4 operations (all ten operation kinds, 2-3 names, 0-2 set-up adds) on one Arc<KnowledgeBase> under seeded yields/sleeps at the library's schedule points and before every call; each recorded history (client-side call/return stamps from one atomic clock) is checked for linearizability (WGL search memoised on (linearised set, model state), step cap => inconclusive). A concurrent history is non-trivial when operations of different threads overlapped in real time and a worker-thread operation changed the store; distinct by recorded history. Thorough adds the same generator under Miri many-seeds (64 scheduler seeds x 20 histories) and a ThreadSanitizer build (8 processes x 5000 histories).".into()
+        "sequential, EXHAUSTIVE: every sequence of length 1..=5 (quick) / 1..=6 (thorough) over the 25 mutating operations {add 4 names x 3 saliences, remove x4, enable x4, disable x4, clear}: return value and version checked after every operation, every read view (get_rule for all 4 names, get_rules, get_rule_names, rule_count, get_rules_by_salience+get_rule_by_index, get_statistics, version) compared with the ordered-list+version model after the last one; sequential, SAMPLED (saliences also i32::MIN / i32::MAX, 1 add in 6): random sequences of length 6..=8 (1 in 8: 9..=16) over 2-4 names with every view compared after every operation; plus 'wide' random sequences of 30..=90 operations over 48 names (beyond the stated 4-name bound; long lists with many equal saliences), views compared after the last operation; plus random sequences of 3..=8 steps over 3-4 names in which a third of the steps load a batch of 2-3 rules through add_rules_from_grl (added one by one; the first duplicate fails the call and what was added before it stays), every view compared after every step. A sequential case is non-trivial when at least 2 rules were stored at some point and it contains an operation other than a first-time add (rejected duplicate, missing-name operation, removal, enable/disable, clear); distinct by operation sequence (length>=5 exhaustive cases are counted, not hashed). Concurrent, SAMPLED: random programs of 3 threads x 4 operations (all ten operation kinds, 2-3 names, 0-2 set-up adds) on one Arc<KnowledgeBase> under seeded yields/sleeps at the library's schedule points and before every call; each recorded history (client-side call/return stamps from one atomic clock) is checked for linearizability (WGL search memoised on (linearised set, model state), step cap => inconclusive). A concurrent history is non-trivial when operations of different threads overlapped in real time and a worker-thread operation changed the store; distinct by recorded history. Concurrent, WIDE (beyond the stated 4-name bound): 1 writer thread running a seeded script of 1500 (quick) / 4000 (thorough) add / remove / enable / disable operations (hot rules entering in front, in the middle, at the end of a salience level and at the back; permanent rules removed and put back) on a knowledge base of 65..520 permanent rules while 3 reader threads call get_rules, get_rules_snapshot, get_rule_names, rule_count, get_statistics and get_rule; every answer must equal the view of one of the model states S_lo..S_hi (lo = writer operations finished before the call, hi = started before the return; exact for a single writer); every other run paces the writer to one operation per completed read (narrow intervals); half the rounds under the seeded sleeps at the library's schedule points. Thorough adds the same generator under Miri many-seeds (64 scheduler seeds x 20 histories) and a ThreadSanitizer build (8 processes x 5000 histories).".into()
     }
     fn assumptions(&self) -> Vec<String> {
         vec![
@@ -688,6 +755,9 @@ impl Check for C15 {
         let t1 = std::time::Instant::now();
         self.explore_concurrent(cli, st);
         st.add("wall_ms_concurrent_phase", t1.elapsed().as_millis() as u64);
+        let t1b = std::time::Instant::now();
+        self.explore_wide(cli, st);
+        st.add("wall_ms_wide_concurrent_phase", t1b.elapsed().as_millis() as u64);
         if cli.tier == Tier::Thorough {
             let t2 = std::time::Instant::now();
             self.explore_sanitizers(cli, st);
@@ -775,6 +845,27 @@ impl Check for C15 {
                     Err(dlwatch::WatchErr::Blocked(why)) => vec![violation("operations-return", "all-threads-blocked", &why, case.clone())],
                     Err(dlwatch::WatchErr::Died) => bad("the replay thread died"),
                 }
+            }
+            Some("wide-concurrent") => {
+                let Some(cfg) = c15_wide::WideCfg::from_json(case) else {
+                    return bad("cannot decode the wide configuration");
+                };
+                // schedule-dependent: re-execute, alternately plain and under perturbation
+                for t in 0..40 {
+                    if t % 2 == 1 {
+                        sched::install(cli.seed.wrapping_add(t), PERTURB_US);
+                    }
+                    let (_, f) = c15_wide::run_wide(&cfg);
+                    if t % 2 == 1 {
+                        sched::uninstall();
+                    }
+                    if let Some(f) = f {
+                        if f.clause != "harness" {
+                            return vec![violation(f.clause, &f.cause, &f.detail, case.clone())];
+                        }
+                    }
+                }
+                vec![]
             }
             Some(k @ ("miri" | "tsan")) => {
                 let args: Vec<String> = case["args"].as_array().map(|a| a.iter().filter_map(|x| x.as_str().map(|s| s.to_string())).collect()).unwrap_or_default();
